@@ -33,7 +33,8 @@ def water(r=0.96, ang=104.5):
 def mol_spec(pr, rng, max_active_sos=8, allow_uhf=True, allow_frozen=True, kinds=None):
     """Random small-molecule specification: dict(xyz, q, spin, basis, frozen, uhf, label)."""
     kinds = kinds or ["H2", "H2", "H3+", "H3", "H4", "H4", "H4+", "H2_321g", "LiH", "H2O", "H4ring", "H4cluster", "H3cluster+",
-                      "H4_triplet_frozen", "H2O_triplet_frozen", "OH_uhf_split_frozen", "H2O+_uhf_split_frozen"]
+                      "H4_triplet_frozen", "H2O_triplet_frozen", "OH_uhf_split_frozen", "H2O+_uhf_split_frozen",
+                      "H2+", "LiH+_one_active_electron", "H5"]
     for _ in range(50):
         k = pr.choice(kinds)
         basis, q, spin, frozen = "sto-3g", 0, 0, None
@@ -57,6 +58,15 @@ def mol_spec(pr, rng, max_active_sos=8, allow_uhf=True, allow_frozen=True, kinds
             xyz, q = cluster(rng, 3), 1
         elif k == "H4+":
             xyz, q, spin = chain(4, pr.uniform(0.8, 1.4)), 1, 1
+        elif k == "H2+":
+            # one active electron
+            xyz, q, spin = chain(2, pr.uniform(0.8, 1.6)), 1, 1
+        elif k == "LiH+_one_active_electron":
+            xyz, q, spin = [("Li", (0, 0, 0)), ("H", (0, 0, pr.uniform(1.4, 2.0)))], 1, 1
+            frozen = pr.choice([[0, 4, 5], [0, 3, 4], [0, 5]])
+        elif k == "H5":
+            # five active electrons (ten spin-orbitals: thorough tiers)
+            xyz, spin = chain(5, pr.uniform(0.9, 1.3)), 1
         elif k == "HeH+":
             xyz, q = [("He", (0, 0, 0)), ("H", (0, 0, pr.uniform(0.6, 1.4)))], 1
         elif k == "LiH":
@@ -87,7 +97,7 @@ def mol_spec(pr, rng, max_active_sos=8, allow_uhf=True, allow_frozen=True, kinds
             if not allow_uhf:
                 continue
             return spec
-        uhf = allow_uhf and pr.random() < 0.25 and k not in ("H4_triplet_frozen", "H2O_triplet_frozen")
+        uhf = allow_uhf and pr.random() < 0.25 and k not in ("H4_triplet_frozen", "H2O_triplet_frozen", "LiH+_one_active_electron")
         if allow_frozen and frozen is None and pr.random() < 0.3 and k in ("H4", "H4ring", "H4cluster", "H2_321g", "H3+", "H4+"):
             nmo = {"H4": 4, "H4ring": 4, "H4cluster": 4, "H2_321g": 4, "H3+": 3, "H4+": 4}[k]
             nocc = {"H4": 2, "H4ring": 2, "H4cluster": 2, "H2_321g": 1, "H3+": 1, "H4+": 2}[k]
